@@ -173,3 +173,66 @@ def nontrivial(case, h):
     non = sum(1 for r in recs if r["unit_category"] == "expected" and int(r["reporting"]) == 0)
     unx = sum(1 for r in recs if r["unit_category"] != "expected")
     return non >= 1 and unx >= 1
+
+
+def parse_bool_list(r):
+    vals = r.strip().strip("[]").split(";")
+    return [v.strip() for v in vals if v.strip()]
+
+
+def run_family(chk, worker, jobs, rule, classify, min_ok_frac=0.25, shard=6, extra_assumptions=None):
+    """Common driver: proofs, run workers, evaluate their Gallina checks, reconcile with the S oracle."""
+    import json
+    import random
+
+    from harness import gen
+
+    prop = chk.prop
+    ok, rep = chk.proofs()
+    chk.assumptions += extra_assumptions or []
+    outs = core.pmap(worker, jobs)
+    exprs, idx = [], []
+    n_ok = 0
+    for j, o in enumerate(outs):
+        chk.count(o["fp"], nontrivial=o["nontrivial"], sample=o.get("sample"))
+        n_ok += 1 if o["ok"] else 0
+        for k, e in enumerate(o["exprs"]):
+            exprs.append(e)
+            idx.append((j, k))
+    res, errs = core.coq_eval(prop, o_imports(outs), exprs, shard=shard, timeout=900) if exprs else ([], [])
+    mismatch = {}
+    for (j, k), r in zip(idx, res):
+        labels = outs[j]["labels"][k]
+        if r is None:
+            mismatch.setdefault(j, []).append(("coq-eval-failed", (errs or ["?"])[0][-300:]))
+            continue
+        for lab, v in zip(labels, parse_bool_list(r)):
+            if v != "true":
+                mismatch.setdefault(j, []).append((lab, v))
+    for j, o in enumerate(outs):
+        replay = {"kind": "gen_case", "seed": o["seed"], "kw": o["kw"]}
+        case = None
+        for f in o["s"]:
+            if case is None:
+                case = gen.gen_case(random.Random(o["seed"]), **o["kw"]) if o.get("regen", True) else {}
+            chk.violation(f["what"], replay, classify(f, case))
+        for pr in o["problems"]:
+            chk.violation(f"non-finite or fractional value in a returned table: {json.dumps(pr, default=str)[:200]}", replay, {"kind": "non-whole"})
+        if j in mismatch and not o["s"] and not o["problems"]:
+            chk.violation(f"implementation output differs from the model's ({mismatch[j][:3]}) although the {prop} predicate holds on this output",
+                          dict(replay, correspondence=f"comparators of coq/Model for {prop}: " + str(mismatch[j][:3])), {"kind": "model-diff"}, no_input=True)
+    if n_ok < max(3, int(len(outs) * min_ok_frac)):
+        chk.violation(f"only {n_ok} of {len(outs)} generated runs completed; {prop} cannot be evaluated",
+                      {"kind": "coverage", "excs": [o["exc"] for o in outs if not o["ok"]][:5]}, {"kind": "coverage"}, no_input=True)
+    if not ok and not [v for v in chk.violations if not v["no_input"]]:
+        chk.violation(f"proof obligations of {prop} no longer check", {"theorem_file": f"coq/Properties/{prop}.v", "log": rep.get("log_tail", "")[-1500:],
+                                                                      "translator": chk.notes.get("translator_problems")}, {"kind": "proof-broken"}, no_input=True)
+    return chk.finish(rule, extra={"runs_completed": n_ok, "runs_raised": len(outs) - n_ok, "coq_checks": len(exprs),
+                                   "raised_kinds": sorted({(o["exc"] or ["?"])[0] for o in outs if not o["ok"]})})
+
+
+def o_imports(outs):
+    for o in outs:
+        if o.get("imports"):
+            return o["imports"]
+    return IMPORTS
